@@ -88,6 +88,60 @@ def construction_checks():
     return viol
 
 
+def from_array_purity(tier):
+    """from_array(values, counts, common, mapping) leaves the array, the caller's counts dict and the mapping untouched - on both construction
+    strategies (small arrays; sparse arrays with 5+ distinct values) and with every option."""
+    from catii.iindexes import iindex
+
+    from . import c01
+
+    viol = []
+    n = 0
+
+    def one(a, common, counts, mapping, opd):
+        nonlocal n
+        n += 1
+        a0, c0, m0 = a.copy(), (dict(counts) if counts is not None else None), (dict(mapping) if mapping is not None else None)
+        order0 = list(counts) if counts is not None else None
+        try:
+            kw = {} if common is None else {"common": common}
+            iindex.from_array(a, counts=counts, mapping=mapping, **kw)
+        except Exception:
+            return
+        if not numpy.array_equal(a, a0):
+            viol.append({"site": "index:from_array:array-modified", "detail": "the input array changed", "case": {"part": "from_array", "op": opd}})
+        if counts is not None and (counts != c0 or list(counts) != order0):
+            viol.append({"site": "index:from_array:counts-modified", "detail": "the caller's counts changed from %r to %r" % (c0, counts), "case": {"part": "from_array", "op": opd}})
+        if mapping is not None and mapping != m0:
+            viol.append({"site": "index:from_array:mapping-modified", "detail": "the caller's mapping changed from %r to %r" % (m0, mapping), "case": {"part": "from_array", "op": opd}})
+
+    def countsof(a):
+        c = {}
+        for v in a.flat:
+            c[int(v)] = c.get(int(v), 0) + 1
+        return c
+
+    emb = (0, 1, 2, 3)
+    for sh in [(k,) for k in range(1, 5)] + [(2, 2), (3, 2)]:
+        for a in M.all_arrays(sh, range(3)):
+            for mk in c01.MAPPINGS:
+                mapping = c01.make_mapping(mk, emb)
+                for common in (None, 0, 3):
+                    cm = common if (common is None or not mapping) else mapping.get(common, common)
+                    one(a.copy(), cm, countsof(a), dict(mapping) if mapping else None, {"array": a.tolist(), "mapping": mk, "common": cm})
+    for cfg in c01.rowscan_configs(tier):
+        if int(numpy.prod(cfg["shape"])) > 1000:
+            continue
+        e7 = c01.ROWSCAN_EMBS[0]
+        for a, cells, vals in itertools.islice(c01.rowscan_arrays(tuple(cfg["shape"]), cfg["k"], e7, cfg["dup"]), 0, None, 5):
+            many = {v: v for v in e7}
+            many[e7[2]] = e7[1]
+            for mapping in (None, many):
+                for common in (None, e7[0], e7[6]):
+                    one(a.copy(), common, countsof(a), dict(mapping) if mapping else None, {"rowscan": cfg["shape"], "cells": list(cells), "values": [int(v) for v in vals], "mapping": bool(mapping), "common": common})
+    return viol, n
+
+
 def main(tier, all_violations=False, t0=None):
     t0 = t0 or time.time()
     desc = describe(tier)
@@ -109,6 +163,8 @@ def main(tier, all_violations=False, t0=None):
     bv, bc = bigops.family(None, tier, "C17")
     for v in bv:
         viol.append({"site": "index:" + v["site"], "detail": v["detail"], "case": {"part": "index", "op": v["op"], "state": None, "tier": tier}})
+    fv, fn = from_array_purity(tier)
+    viol.extend(fv)
     # (c)
     for v in construction_checks():
         viol.append({"site": v["site"], "detail": v["detail"], "case": {"part": "construct"}})
@@ -186,6 +242,12 @@ def replay(case, site=None):
 
     if case.get("part") == "index":
         return histprop.replay(case)
+    if case.get("part") == "from_array":
+        fv, fn = from_array_purity("quick")
+        hits = [v for v in fv if v["case"]["op"] == case["op"]]
+        for v in hits:
+            print("  %s :: %s" % (v["site"], v["detail"][:400]))
+        return bool(hits)
     if case.get("part") == "construct":
         v = construction_checks()
         print(v)
